@@ -23,8 +23,9 @@ RULES = {
     'R11': 'what can fault comes last under the SIGBUS guard: in the transport disconnect that sets a jump target for SIGBUS, for every connection state, no deregistration or close of the connection\'s descriptor follows a ring close in the same call (a ring file the client truncated makes the close jump to the end: the descriptor would stay in the main loop, dispatching to a connection that is then destroyed)',
     'R12': 'a registration that fails half-way takes the first half back: where a transport registers two descriptors of a connection with the main loop, the failure of the second registration is followed by dispatch_del of the first on every path - the connection is freed right after, and the main loop would keep a (closed) descriptor that dispatches to it',
     'R13': 'no request after closed: in the dispatcher\'s batch loop the next request is taken only after the connection was seen to be still ESTABLISHED - msg_process may have disconnected it (connection_closed has then run; on shared memory the request ring stays readable while the dispatcher holds its reference, so the queued requests of the batch would still be delivered)',
+    'R14': 'nothing of a connection is released twice: the transport disconnects, evaluated per connection state and composed along ACTIVE -> INACTIVE and ESTABLISHED -> SHUTTING_DOWN, release every resource of the matching connect exactly once, and nothing in state INACTIVE (= C03.R2) - a second munmap of the control page of a connection the application still references hits the page of a later connection',
 }
-FLOORS = {'R13': 1, 'R12': 1, 'R11': 4, 'R1': 24, 'R2': 4, 'R3': 9, 'R4': 8, 'R5': 2, 'R6': 5, 'R7': 6, 'R8': 3, 'R9': 6, 'R10': 1}
+FLOORS = {'R14': 10, 'R13': 1, 'R12': 1, 'R11': 4, 'R1': 24, 'R2': 4, 'R3': 9, 'R4': 8, 'R5': 2, 'R6': 5, 'R7': 6, 'R8': 3, 'R9': 6, 'R10': 1}
 
 CB = ('connection_accept', 'connection_created', 'msg_process', 'connection_closed', 'connection_destroyed')
 SLOT = 'qb_ipcs_service_handlers::%s'
@@ -46,6 +47,14 @@ def run(ctx):
     r11(ctx, st)
     r12(ctx)
     r13(ctx, st)
+    # R14 = C03.R2: the transport of a connection is taken down once - what a disconnect in one state has released is not released
+    # again by the call that follows in the next state (the final unref calls the transport disconnect a second time)
+    from rules import c03
+    sub = type(ctx)(ctx.prog, ctx.prop, ctx.tier, ctx.depth)
+    c03.r2(sub)
+    for r in sub.results:
+        r['rule'] = 'R14'
+        ctx.results.append(r)
 
 
 def r1(ctx, st):
